@@ -89,6 +89,14 @@ def run(ctx):
     else:
         vlib.model_check(ctx, "MC_NackGen.tla", vlib.cfg_variant(ctx, "MC_NackGen.cfg", {"MaxSteps": 7}), timeout=3000)
         vlib.model_check(ctx, "MC_NackGen.tla", vlib.cfg_variant(ctx, "MC_NackGen_nolimit.cfg", {"MaxSteps": 8}), timeout=3000)
+    # implementation-shaped layer: bitmap ring + cursors refine NackGen for every history (negative controls: the two
+    # window tests as they were before the repairs)
+    for cfg in ("MC_NackGenRing.cfg", "MC_NackGenRing_skip.cfg", "MC_NackGenRing_half.cfg"):
+        vlib.model_check(ctx, "MC_NackGenRing.tla", vlib.cfg_variant(ctx, cfg, {"MaxSteps": 5 if ctx.quick else 7}), workers=4, timeout=3000)
+    vlib.model_check(ctx, "MC_NackGenRing.tla", "MC_NackGenRing_neg_alias.cfg", workers=2, expect_violation="Invariant Refines is violated",
+                     note="negative control: a packet older than the window sets an aliased bitmap slot")
+    vlib.model_check(ctx, "MC_NackGenRing.tla", "MC_NackGenRing_neg_span.cfg", workers=2, expect_violation="Invariant Refines is violated",
+                     note="negative control: span test >= M/2 hides a full-span gap at Size = M/2")
     # (G) systematic, pure receiveLog
     if ctx.quick:
         confs = [(64, 0, 0, 65530, 3), (64, 1, 2, 0, 3), (128, 3, 1, 32760, 2)]
